@@ -403,6 +403,12 @@ def transform(toks, it, hoist_names=None, hoist_suffix=None, is_member=False, re
             skipq[q] = (gname, e)
             res.dropped.append(('rewrite', 'impl-Trait argument -> named generic %s' % gname))
         name_idx = it.kw + 1
+        # `mut self` receivers are not supported by this Verus: `fn f(mut self, ..) { B }` is rewritten to
+        # `fn f(self, ..) { let mut this__ = self; B[self := this__] }`
+        mut_self = None
+        for q0 in header:
+            if toks[q0].text == 'mut' and q0 + 1 < hend and toks[q0 + 1].text == 'self' and toks[q0 - 1].text == '(':
+                mut_self = q0
         q = start
         if not is_member:
             # free functions are referenced across the generated modules: visibility rewritten to `pub`
@@ -416,6 +422,10 @@ def transform(toks, it, hoist_names=None, hoist_suffix=None, is_member=False, re
                 gname, e = skipq[q]
                 out.append(mk('ident', gname))
                 q = e
+                continue
+            if mut_self is not None and q == mut_self:
+                res.dropped.append(('rewrite', '`mut self` receiver -> `self` + `let mut this__ = self;`'))
+                q += 1
                 continue
             n = clone_tok(t)
             if q == start or (not is_member and q == it.vis[1]):
@@ -439,6 +449,10 @@ def transform(toks, it, hoist_names=None, hoist_suffix=None, is_member=False, re
             q += 1
         if it.body:
             emit(toks[it.body[0]])
+            if mut_self is not None:
+                for tx, kd in (('let', 'ident'), ('mut', 'ident'), ('this__', 'ident'), ('=', 'punct'), ('self', 'ident'), (';', 'punct')):
+                    out.append(mk(kd, tx, ' '))
+                hoist_names = dict(hoist_names, self='this__')
             body_tokens(it.body[0] + 1, it.body[1], it)
             emit(toks[it.body[1]])
         else:
@@ -548,7 +562,7 @@ def splice_fn(em, toks, fn, fc, ctx, marks):
     pre_attrs = []
     if fc is not None:
         pre_attrs += list(fc.attrs)
-        if fc.external_body:
+        if fc.external_body and fn.body:
             pre_attrs.append('#[verifier::external_body]')
     ins_before = {}
 
